@@ -82,6 +82,12 @@ Theorem T_C20_throwing_dtors : throwing_dtors dtors = expected_throwing_dtors.
 Proof. exact throwing_dtors_expected. Qed.
 Print Assumptions T_C20_throwing_dtors.
 
+(* ... and the functions declared noexcept whose bodies or member initialisers call possibly-throwing code are exactly
+   the listed ones (two of them are defects: F38, F39; see InvSpec.v) *)
+Theorem T_C20_noexcept_callers : noexcept_callers noexcept_fns = expected_noexcept_callers.
+Proof. exact noexcept_callers_expected. Qed.
+Print Assumptions T_C20_noexcept_callers.
+
 Theorem T_C20_no_noexcept_false : forallb (fun d => negb (String.eqb (dt_noexcept_false d) "yes")) dtors = true.
 Proof. exact no_noexcept_false. Qed.
 Print Assumptions T_C20_no_noexcept_false.
